@@ -54,6 +54,7 @@ ModelAction(op) ==
     [] op[1] = "append-rejected" -> AppendRejected
     [] op[1] = "append-encode-fails" -> AppendEncodeFails
     [] op[1] = "flush" -> Flush
+    [] op[1] = "flush-sinkfail" -> FlushSinkFails
     [] op[1] = "extend" -> ExtendOk(op[2])
     [] op[1] = "extend-bad" -> ExtendStopsAtBad(op[2])
     [] op[1] = "add-meta" -> AddUserMetadata(op[2])
@@ -80,6 +81,8 @@ TrOp ==
             fail ==
               If(~e.panic, "C03:panic")
               \cup If(~(failing \/ op[1] = "extend-bad") \/ e.res = "err", "TOOL:operation-meant-to-fail-succeeded")
+              \* (with nothing pending flush() returns before it reaches the sink's flush)
+              \cup If(op[1] # "flush-sinkfail" \/ (e.res = "err") = (buffer # <<>>), "C13:sink-flush-error-not-reported")
               \cup If(e.split_ok, "C03:sink-not-a-container-file")
               \cup If(~e.split_ok \/ IsPrefix(flat, newApp), "C03:blocks-not-a-prefix-of-appended-values")
               \cup If(~e.split_ok \/ ~failing \/ (e.res = "err" /\ flat = prevFlat), "C03:failed-append-left-a-trace")
